@@ -196,6 +196,34 @@ def run(tier):
                     b.handles[0][oi].name = newname
                     mutated['lfs'][0]['objects'][oi]['name'] = newname
                     muts.append(f'object #{oi}.name = {newname!r}')
+            # values replaced by values of another kind (numbers <-> text, int <-> float, date-time <-> float) on attributes
+            # whose representation code follows the value
+            import datetime as dtm2
+            for oi, o in enumerate(objs):
+                rows_ = {r_[1]: r_ for r_ in filegen.ATTRS[filegen.KINDS[o['kind']][1]]}
+                for pyname, a in list(o['attrs'].items()):
+                    row_ = rows_.get(pyname)
+                    if row_ is None or a['v'] is None or R.random() > 0.5:
+                        continue
+                    newv = None
+                    if row_[2] == 'Attribute' and row_[3] == 0 and isinstance(a['v'], (list, tuple)) and a['v']:
+                        flat_old = eflr.flatten(a['v'])
+                        n_ = len(flat_old) if o['kind'] != 'parameter' else 1
+                        if all(isinstance(x, float) for x in flat_old):
+                            newv = [R.randrange(-50, 50) for _ in range(n_)]
+                        elif all(isinstance(x, int) for x in flat_old):
+                            newv = [R.choice([1.5, -2.25, 0.125]) for _ in range(n_)]
+                        else:
+                            newv = [float(k_) for k_ in range(n_)]
+                    elif row_[2] == 'DTimeAttribute' and 'allow_float' in row_[7]:
+                        newv = 12.5 if not isinstance(a['v'], (int, float)) else dtm2.datetime(2001, 2, 3, 4, 5, 6)
+                    if newv is None:
+                        continue
+                    st_v, _ = call(setattr, getattr(b.handles[0][oi], pyname), 'value', newv)
+                    if st_v != 'ok':
+                        continue
+                    mutated['lfs'][0]['objects'][oi]['attrs'][pyname] = dict(a, v=newv)
+                    muts.append(f'object #{oi}.{pyname}.value = {newv!r} (was {a["v"]!r})')
             if not muts:
                 continue
             s2, e2 = call(b.df.write, p, **kw)
